@@ -92,6 +92,15 @@ M = [
     ("c12_missing_dropped", "C12", "jade/jobs/job_submitter.py",
      "            missing_jobs = sorted(all_jobs.difference(finished_jobs))\n",
      "            missing_jobs = sorted(all_jobs.difference(finished_jobs))[1:]\n", 2400),
+    ("c20_events_sorted_by_source", "C20", "jade/events.py",
+     "            self._events[name].sort(key=lambda x: x.timestamp)",
+     "            self._events[name].sort(key=lambda x: x.source)", 1600),
+    ("c20_events_skip_dup_timestamp", "C20", "jade/events.py",
+     "                    self._events[event.name].append(event)",
+     "                    if not any(x.timestamp == event.timestamp and x.source == event.source for x in self._events[event.name]):\n                        self._events[event.name].append(event)", 1600),
+    ("c20_stats_average_off", "C20", "jade/resource_monitor.py",
+     "                self._summaries[\"average\"][resource_type][stat_name] = val / self._count",
+     "                self._summaries[\"average\"][resource_type][stat_name] = val / max(1, self._count - 1)", 1600),
     ("c20_tally_canceled_as_failed", "C20", "jade/jobs/job_submitter.py",
      "            elif result.is_failed():\n                num_failed += 1\n",
      "            elif result.is_failed() or result.is_canceled():\n                num_failed += 1\n", 1200),
